@@ -8,7 +8,9 @@ Every pattern is a python LEAF of the translated function:
  * the three `%`-formats and the `join` that build the pint expression: the string is data for pint, the tree
    constructors of the view name the format (a changed format string no longer matches its pattern, the generic rule
    `Py.fmt` then yields a `String` where a `UExpr` is expected and the build fails);
- * `UNIT_PREFIXES[k]` (generated table), `str.strip`, `str.isnumeric`, `int`;
+ * `UNIT_PREFIXES[k]` (generated table); `float(text)` (CPython's conversion, `ValueError` for text that is not a number:
+   a monadic leaf, so the short circuit of `'offset' in d and float(d['offset']) != 0` and the class of the exception
+   flow from the source; the comparison `!= 0` is the generic rule, on the view's `PyFloat`);
  * etree queries (`findall`, `get`, `getchildren`, `attrib`), `set(_CELLML_UNITS)`;
  * the `UnitStore` methods `add_base_unit`, `is_defined`, `add_unit`; the call of the sibling method
    `_make_pint_unit_definition` goes to the definition generated from ITS source;
@@ -28,9 +30,7 @@ _MAKE = {'file': 'cellmlmanip/parser.py',
                       ("'(%s * %s)' % (__A, __B)", '(Pint.fmtMul {A} {B})'),
                       ("'((%s)**%s)' % (__A, __B)", '(Pint.fmtPow {A} {B})'),
                       ("'*'.join(__A)", '(Pint.joinStar {A})'),
-                      ('__A.strip()', '(Pint.strip {A})'),
-                      ('__A.isnumeric()', '(Pint.isNumeric {A})'),
-                      ('int(__A)', '(Pint.int {A})')],
+                      ('float(__A)', '← Pint.float {A}')],
          'stmt_patterns': [('full_unit_expr.append(__A)', 'full_unit_expr := full_unit_expr ++ [{A}]')]}
 
 # the same function once more with the GENERIC rules for the formats (`Py.fmt`, `String.intercalate`): the string pint
@@ -45,9 +45,7 @@ _MAKE_STR = {'file': 'cellmlmanip/parser.py',
              'patterns': [('UNIT_PREFIXES[__A]', '← Pint.prefixTableStr {A}'),
                           ('__D[__K]', '(({D}).get! {K})'),
                           ('__K in __D', '(({D}).has {K})'),
-                          ('__A.strip()', '(Pint.strip {A})'),
-                          ('__A.isnumeric()', '(Pint.isNumeric {A})'),
-                          ('int(__A)', '(Pint.int {A})')],
+                          ('float(__A)', '← Pint.float {A}')],
              'stmt_patterns': [('full_unit_expr.append(__A)', 'full_unit_expr := full_unit_expr ++ [{A}]')]}
 
 _UNITS_PATTERNS = [('__D[__K]', '(({D}).get! {K})'),
